@@ -87,6 +87,7 @@ func c05(c *core.Ctx) string {
 		c.Rule("R-C05-6", "the route cache does not bypass IP filters: every IP test passed on the way to a cache put is re-validated on a hit (shared with R-C12-2)")
 		c12SearchIPOnly(c, s, "R-C05-6")
 	}
+	ipChainNoAliasing(c, "R-C05-7")
 	return "Exhaustive decision-table extraction for IPFilter.Allow (all abstract paths) and the conjunction in IPFilters.Allow; path-sensitive proof over muxInstance.search that the three filter levels dominate every uncached success return and that cached routes are re-checked through a chain which, by symbolic evaluation of reload/newMuxRule/newMuxPath/newIPFilterChain, contains server+rule+path filters; serveHTTP does not dispatch a 4xx route; ranger entries come from successful parses. Not decided: trie membership, IPv4-mapped IPv6, realip extraction."
 }
 
